@@ -16,7 +16,7 @@ import os
 
 from . import cfg as C
 from . import fmt
-from .dataflow import decl_of, def_sites
+from .dataflow import decl_of, def_exprs, def_sites
 from .facts import render, strip
 from .linear import Lin, entails
 
@@ -101,6 +101,75 @@ class BoundsAnalysis:
         self.global_facts = []   # facts about fields etc. supplied by the rule (Lin >= 0)
         self.field_bounds = {}   # struct member name -> (min, max) derived by the rule
         self.ret_summaries = {}
+        self.pre_sites = {}      # key of a static callee -> {call node id: (frozenset of entry facts, {param index: capacity})}
+        self._direct_sites = {}
+
+    # ---- preconditions of file-local helpers, inferred from their call sites ---------------------
+    def direct_sites_of(self, t):
+        """ids of the call expressions that call the static function t by name, or None when its address also
+        escapes (table, callback): then not every call is visible and nothing may be assumed"""
+        if t.key in self._direct_sites:
+            return self._direct_sites[t.key]
+        ids = set()
+        escapes = False
+        for f in self.prog.functions:
+            if f.tu is not t.tu:
+                continue
+            for n in f.body.walk():
+                if n.k == 'DeclRefExpr' and n['ref'].get('kind') == 'func' and n['ref'].get('name') == t.name:
+                    par = n.parent
+                    while par is not None and par.k in ('ImplicitCastExpr', 'ParenExpr'):
+                        par = par.parent
+                    if par is not None and par.k == 'CallExpr' and par.get('callee') == t.name:
+                        ids.add((f.key, par.id))
+                    else:
+                        escapes = True
+        for g in t.tu.globals:
+            if getattr(g, 'init', None) is not None and any(
+                    n.k == 'DeclRefExpr' and n['ref'].get('kind') == 'func' and n['ref'].get('name') == t.name
+                    for n in g.init.walk()):
+                escapes = True
+        self._direct_sites[t.key] = None if escapes else ids
+        return self._direct_sites[t.key]
+
+    def preconditions(self, t):
+        """(entry facts, parameter capacities) that hold at EVERY call of the static function t - available once all
+        its callers have been analysed (analyse callers first: order_callers_first)"""
+        if not t.internal:
+            return (), {}
+        want = self.direct_sites_of(t)
+        got = self.pre_sites.get(t.key, {})
+        if not want or set(got) != want:
+            return (), {}
+        facts = None
+        caps = None
+        for fs, cp in got.values():
+            facts = set(fs) if facts is None else facts & fs
+            caps = dict(cp) if caps is None else {k: min(v, cp[k]) for k, v in caps.items() if k in cp}
+        return tuple(sorted(facts or (), key=str)), caps or {}
+
+    def order_callers_first(self, funcs):
+        """the given functions ordered so that a function comes after the functions that call it (cycles: as found)"""
+        keys = {f.key: f for f in funcs}
+        indeg = {k: 0 for k in keys}
+        out_edges = {k: set() for k in keys}
+        for f in funcs:
+            for c in f.calls():
+                t = self.prog.func(c.get('callee'), f.tu) if c.get('callee') else None
+                if t is not None and t.key in keys and t.key != f.key and t.key not in out_edges[f.key]:
+                    out_edges[f.key].add(t.key)
+                    indeg[t.key] += 1
+        order = []
+        ready = sorted([k for k, d in indeg.items() if d == 0], key=str)
+        while ready:
+            k = ready.pop(0)
+            order.append(k)
+            for t in sorted(out_edges[k], key=str):
+                indeg[t] -= 1
+                if indeg[t] == 0:
+                    ready.append(t)
+        rest = sorted([k for k in keys if k not in set(order)], key=str)
+        return [keys[k] for k in order + rest]
 
     # ---- buffer/size parameter pairs ----------------------------------------------------------
     def paired_params(self, f):
@@ -227,6 +296,70 @@ class BoundsAnalysis:
         self.ret_summaries[key] = res
         return res
 
+    def int_ret_summary(self, t):
+        """relations between the integer result of the program function t and its arguments that hold at every return:
+        ('le_strlen', i): arg_i + result <= terminator of the string arg_i points into (an offset/count inside it);
+        ('le_param', j, c): result <= arg_j + c.  From a fixed menu, each proved by the analysis of t itself."""
+        key = ('intret', t.key)
+        if key in self.ret_summaries:
+            return self.ret_summaries[key]
+        self.ret_summaries[key] = []
+        res = []
+        if is_int_type(t.d.get('retCanon')) and not t.cfg_error and t.params:
+            A = _FuncAnalysis(self, t, ())
+            A.collect_ret_states = []
+            A.run()
+            rets = A.collect_ret_states
+            if rets:
+                for i, p in enumerate(t.params):
+                    ct = p['ct']
+                    if '*' in ct and 'char' in ct and ct.count('*') == 1:
+                        reg = A.region_for_param(i)
+                        if reg.end is not None and all(v is not None and A.entails(st, reg.end - reg.base - v) and A.entails(st, v)
+                                                       for st, v in rets):
+                            res.append(('le_strlen', i))
+                    elif is_int_type(ct):
+                        ent = Lin.sym(('var0', p['id'], p['name'] + '@entry'))
+                        for c in (-2, -1, 0):
+                            if all(v is not None and A.entails(st, ent + Lin.const(c) - v) for st, v in rets):
+                                res.append(('le_param', i, c))
+                                break
+        self.ret_summaries[key] = res
+        return res
+
+    def alloc_out_summary(self, t):
+        """k when the file-local function t returns NULL or (the start of) a block it allocated whose capacity is at
+        least the non-negative value it stored through its integer out-parameter #k; else None"""
+        key = ('allocout', t.key)
+        if key in self.ret_summaries:
+            return self.ret_summaries[key]
+        self.ret_summaries[key] = None
+        res = None
+        if t.internal and not t.cfg_error and (t.d.get('retCanon') or '').rstrip().endswith('*'):
+            A = _FuncAnalysis(self, t, ())
+            A.collect_ret_states = []
+            A.collect_ret_nodes = []
+            A.run()
+            outs = [i for i, p in enumerate(t.params) if p['ct'].count('*') == 1 and is_int_type(p['ct'].split('*')[0].replace('const', '').strip())]
+            for k in outs:
+                osym = Lin.sym(('outv', t.params[k]['id'], '*' + t.params[k]['name']))
+                good = bool(A.collect_ret_nodes)
+                nonnull = 0
+                for (st, v), node in zip(A.collect_ret_states, A.collect_ret_nodes):
+                    if strip(node).get('null') or strip(node).get('v') == 0:
+                        continue
+                    nonnull += 1
+                    reg = A.region_of(node, st)
+                    if v is None or reg is None or reg.key[0] != 'heap' or reg.cap is None or not (
+                            A.entails(st, v - reg.base) and A.entails(st, reg.base - v) and
+                            A.entails(st, reg.cap - osym) and A.entails(st, osym)):
+                        good = False
+                if good and nonnull:
+                    res = k
+                    break
+        self.ret_summaries[key] = res
+        return res
+
     def ptr_summary(self, func, call):
         """index of the argument whose string the returned pointer points into (it stays within
         [arg, end of arg's string]), for program functions where the analysis proves that"""
@@ -264,7 +397,9 @@ class BoundsAnalysis:
     def analyse(self, func, entry_facts=(), queries=None):
         if func.cfg_error:
             return []
-        A = _FuncAnalysis(self, func, entry_facts)
+        pre, caps = self.preconditions(func)
+        A = _FuncAnalysis(self, func, list(entry_facts) + list(pre))
+        A.param_caps = caps
         A.queries = queries or {}
         obls = A.run()
         self.obligations += obls
@@ -295,6 +430,7 @@ class _FuncAnalysis:
         self.collect_returns = None
         self.collect_ptr_returns = None
         self.queries = {}
+        self.param_caps = {}
 
     # ---- symbols --------------------------------------------------------------------------------
     def vsym(self, ref):
@@ -352,6 +488,9 @@ class _FuncAnalysis:
                 # (pointer, length) read contract: the caller guarantees `length` readable bytes
                 sp = self.func.params[self.rpaired[idx]]
                 cap = Lin.sym(('var0', sp['id'], sp['name'] + '@entry'))
+            if cap is None and idx in self.param_caps:
+                # file-local helper: every call hands in (the start of) an object of at least this many bytes
+                cap = Lin.const(self.param_caps[idx])
             self.regions[key] = Region(key, base, cap, end, p['name'])
         return self.regions[key]
 
@@ -595,21 +734,24 @@ class _FuncAnalysis:
     def kill_var(self, st, vid):
         pr = lambda s: (s[0] == 'var' and s[1] == vid) or (s[0] == 'strlen' and s[1] == ('decl', vid))
         facts = self.project(self.saturate(st, pr), pr)
-        regions = frozenset((v, k) for v, k in st.regions if v != vid)
+        regions = frozenset((v, k) for v, k in st.regions if v != vid and v != ('prefix', vid))
         return State(facts, regions)
 
     def kill_strlen_of_region(self, st, region):
         # strlen of strings living in a region that is written to are no longer known
         if region is None:
             pr = lambda s: s[0] == 'strlen'
-            return State(self.project(self.saturate(st, pr), pr), st.regions)
+            return State(self.project(self.saturate(st, pr), pr),
+                         frozenset((v, k) for v, k in st.regions if not (isinstance(v, tuple) and v[0] == 'prefix')))
         ids = {v for v, k in st.regions if k == region.key}
         if region.key[0] == 'arr':
             ids.add(region.key[1])
         if region.key[0] == 'param':
             ids.add(region.key[1])
         pr = lambda s: s[0] == 'strlen' and (s[1][0] != 'decl' or s[1][1] in ids)
-        return State(self.project(self.saturate(st, pr), pr), st.regions)
+        # what pointers into the region were known to point at is no longer known either
+        return State(self.project(self.saturate(st, pr), pr),
+                     frozenset((v, k) for v, k in st.regions if not (isinstance(v, tuple) and v[0] == 'prefix' and v[1] in ids)))
 
     def type_facts(self, facts):
         """sign facts for symbols that are unsigned / lengths, and string-in-region axioms."""
@@ -761,6 +903,7 @@ class _FuncAnalysis:
         new_region = None
         X = Lin.sym(sym)
         val = self.lin(rhs, st)
+        prefix_mark = None
         if is_ptr:
             new_region = self.region_of(rhs, st)
         if r is not None and r.k == 'CallExpr':
@@ -794,6 +937,22 @@ class _FuncAnalysis:
                     new_facts += [X - ren(sl), ren(sl) + sk - X - Lin.const(1)]
                     if name in ('strstr', 'strcasestr') and len(r.ch) > 2:
                         nd = strip(r.ch[2])
+                        if nd is not None and nd.k == 'StringLiteral' and name == 'strstr':
+                            # what the result is known to begin with; and, when the haystack pointer itself is known
+                            # to begin with a literal, the earliest offset at which this needle can match
+                            prefix_mark = nd.get('s', '')
+                            hs = strip(src)
+                            if hs is not None and hs.k == 'DeclRefExpr':
+                                known = next((lit for v, lit in st.regions if v == ('prefix', hs['ref'].get('id'))), None)
+                                if known and prefix_mark:
+                                    k_ = 0
+                                    while k_ < len(known):
+                                        ov = known[k_:k_ + len(prefix_mark)]
+                                        if prefix_mark.startswith(ov):
+                                            break       # could match here (as far as the known text goes)
+                                        k_ += 1
+                                    if k_ > 0:
+                                        new_facts.append(X - ren(sl) - Lin.const(k_))
                         if nd is not None and nd.k == 'StringLiteral':
                             nl = Lin.const(nd.get('slen', 0))
                         else:
@@ -804,6 +963,18 @@ class _FuncAnalysis:
                             new_facts.append(new_region.end - X - nl)
                 if new_region is not None and new_region.end is not None:
                     new_facts.append(new_region.end - X - Lin.const(1))
+                val = None
+            elif is_ptr and name and self.prog.func(name, self.func.tu) is not None and \
+                    self.top.alloc_out_summary(self.prog.func(name, self.func.tu)) is not None:
+                k_ = self.top.alloc_out_summary(self.prog.func(name, self.func.tu))
+                reg = self.region_for_heap(r, None, ref['name'])
+                new_region = reg
+                new_facts += [X - reg.base, reg.base - X]
+                oa = strip(r.ch[1 + k_]) if 1 + k_ < len(r.ch) else None
+                if oa is not None and oa.k == 'UnaryOperator' and oa.get('op') == '&' and strip(oa.ch[0]).k == 'DeclRefExpr':
+                    ov = Lin.sym(self.vsym(strip(oa.ch[0])['ref']))
+                    # the variable was set by the callee just now: capacity >= its value >= 0
+                    new_facts += [reg.cap - ov, ov]
                 val = None
             elif is_ptr and self.top.ptr_summary(self.func, r) is not None:
                 k = self.top.ptr_summary(self.func, r)
@@ -844,9 +1015,11 @@ class _FuncAnalysis:
         for f in new_facts:
             facts = self.add(facts, f)
         facts = self.project(facts, lambda q: q == tmp)
-        regions = frozenset((v, k2) for v, k2 in st.regions if v != vid)
+        regions = frozenset((v, k2) for v, k2 in st.regions if v != vid and v != ('prefix', vid))
         if new_region is not None:
             regions = regions | {(vid, new_region.key)}
+        if prefix_mark and '\\' not in prefix_mark:
+            regions = regions | {(('prefix', vid), prefix_mark)}
         return State(facts, regions)
 
     def call_result_facts(self, st, call, res):
@@ -894,8 +1067,22 @@ class _FuncAnalysis:
                 out.append(Lin.sym(('strlen', self.strkey(s0), render(s0))) - res)
             return out
         t = self.prog.func(name, self.func.tu) if name else None
-        if t is not None and self.top.nonneg_result(t):
-            return [res]
+        if t is not None:
+            out = [res] if self.top.nonneg_result(t) else []
+            for sm in self.top.int_ret_summary(t):
+                if sm[0] == 'le_strlen' and sm[1] < len(args):
+                    a = self.lin(args[sm[1]], st)
+                    reg = self.region_of(args[sm[1]], st)
+                    if a is not None and reg is not None:
+                        if reg.end is not None:
+                            out.append(reg.end - a - res)
+                        elif reg.cap is not None:
+                            out.append(reg.base + reg.cap - a - res - Lin.const(1))
+                elif sm[0] == 'le_param' and sm[1] < len(args):
+                    a = self.lin(args[sm[1]], st)
+                    if a is not None:
+                        out.append(a + Lin.const(sm[2]) - res)
+            return out or None
         return None
 
     def transfer(self, st, e):
@@ -969,6 +1156,10 @@ class _FuncAnalysis:
             self.read(st, e)
             return st
         if k == 'ReturnStmt' and e.ch:
+            if getattr(self, 'collect_ret_states', None) is not None:
+                self.collect_ret_states.append((st, self.lin(e.ch[0], st)))
+                if getattr(self, 'collect_ret_nodes', None) is not None:
+                    self.collect_ret_nodes.append(e.ch[0])
             if self.collect_returns is not None:
                 v = self.lin(e.ch[0], st)
                 self.collect_returns.append(v is not None and self.entails(st, v))
@@ -1099,6 +1290,21 @@ class _FuncAnalysis:
                 # object of the pointed-to type (out-parameter contract)
                 self.oblige('write', e, 'store *%s' % render(l.ch[0])[:40], True, '',
                             how='offset-0 store through an unmodified pointer parameter')
+                st = self.kill_strlen_of_region(st, reg)
+                if is_int_type((l.get('ct') or '')):
+                    # remember what the out-parameter holds (summaries of "allocate and report the size" helpers)
+                    osym = ('outv', pr['id'], '*' + pr['name'])
+                    facts = self.project(st.facts, lambda q: q == osym)
+                    v = self.lin(e.ch[1], st)
+                    if v is not None and osym not in v.t:
+                        facts = self.eq(facts, Lin.sym(osym), v)
+                    st = State(facts, st.regions)
+                return st
+            if pr is not None and pr['kind'] == 'var' and self._holds_addresses_of_whole_objects(pr, l.ch[0]):
+                # *p = value with p only ever holding &object of p's own pointee type (a link pointer chosen between
+                # &list->first and &node->next): the store covers exactly that object
+                self.oblige('write', e, 'store *%s' % render(l.ch[0])[:40], True, '',
+                            how='the pointer only holds addresses of whole objects of its pointee type')
                 return self.kill_strlen_of_region(st, reg)
             self.check_write(st, e, l.ch[0], Lin.const(self.elem_size(l.ch[0])), 'store *%s' % render(l.ch[0])[:40])
             return self.kill_strlen_of_region(st, reg)
@@ -1107,6 +1313,30 @@ class _FuncAnalysis:
             text = render(l)
             return State(self.project(st.facts, lambda s: s[0] == 'field' and s[1] == text), st.regions)
         return st
+
+    def _holds_addresses_of_whole_objects(self, d, use):
+        pt = (use.get('ct') or '').strip()
+        if not pt.endswith('*') or 'char' in pt.replace('char *', '').replace('char*', '') and pt.count('*') == 1:
+            return False
+        want = pt[:-1].strip()
+        if want in ('char', 'const char', 'void', 'unsigned char', 'signed char'):
+            return False
+        defs = def_exprs(self.func, d['id'])
+        if not defs or any(k2 not in ('decl', 'assign') or n2.k == 'CompoundAssignOperator' for k2, n2 in def_sites(self.func, d['id'])):
+            return False
+
+        def ok(x):
+            x = strip(x)
+            if x is None:
+                return False
+            if x.k == 'ConditionalOperator':
+                return ok(x.ch[1]) and ok(x.ch[2])
+            if x.k == 'UnaryOperator' and x.get('op') == '&':
+                t = strip(x.ch[0])
+                return t is not None and t.k in ('MemberExpr', 'DeclRefExpr') and \
+                    (t.get('ct') or '').strip() == want and not (t.get('ct') or '').rstrip().endswith(']')
+            return False
+        return all(ok(x) for x in defs)
 
     def call(self, st, e):
         name = e.get('callee')
@@ -1240,6 +1470,8 @@ class _FuncAnalysis:
             for cs in self.top.cg.callees(self.func):
                 if cs.node.id == e.id:
                     targets = [t for t in cs.targets if not isinstance(t, str)]
+        if name and len(targets) == 1 and targets[0].internal:
+            self.record_preconditions(st, e, targets[0], args)
         seen_pairs = set()
         for t in targets:
             for bi, si in self.top.paired_params(t).items():
@@ -1265,6 +1497,47 @@ class _FuncAnalysis:
                 if bi < len(args):
                     st = self.kill_strlen_of_region(st, self.region_of(args[bi], st))
         return self.clobber_addr_args(st, e)
+
+    def record_preconditions(self, st, e, t, args):
+        """what this call site guarantees the file-local helper t about its arguments, from a fixed menu of linear
+        facts: sign of an integer argument, order/distance of two arguments of like kind, and the constant capacity
+        of the object a pointer argument points to the start of.  Visits of the same site are intersected."""
+        ent = lambda i: Lin.sym(('var0', t.params[i]['id'], t.params[i]['name'] + '@entry'))
+        n = min(len(args), len(t.params))
+        lins = [self.lin(args[i], st) if args[i] is not None else None for i in range(n)]
+        isptr = [t.params[i]['ct'].rstrip().rstrip('const').rstrip().endswith('*') or '*' in t.params[i]['ct'] for i in range(n)]
+        facts = set()
+        caps = {}
+        for i in range(n):
+            if lins[i] is None:
+                continue
+            if not isptr[i] and is_int_type(t.params[i]['ct']):
+                for c in (1, 0):
+                    if self.entails(st, lins[i] - Lin.const(c)):
+                        facts.add(ent(i) - Lin.const(c))
+                        break
+            if isptr[i]:
+                reg = self.region_of(args[i], st)
+                if reg is not None and reg.cap is not None and reg.cap.is_const():
+                    off = lins[i] - reg.base
+                    if off.is_const() and 0 <= off.c <= reg.cap.c:
+                        caps[i] = reg.cap.c - off.c
+            for j in range(n):
+                if j == i or lins[j] is None or isptr[i] != isptr[j]:
+                    continue
+                if not isptr[i] and not (is_int_type(t.params[i]['ct']) and is_int_type(t.params[j]['ct'])):
+                    continue
+                for c in (2, 1, 0):
+                    if self.entails(st, lins[i] - lins[j] - Lin.const(c)):
+                        facts.add(ent(i) - ent(j) - Lin.const(c))
+                        break
+        site = (self.func.key, e.id)
+        d = self.top.pre_sites.setdefault(t.key, {})
+        if site in d:
+            of, oc = d[site]
+            facts = set(of) & facts
+            caps = {k: min(v, oc[k]) for k, v in caps.items() if k in oc}
+        d[site] = (frozenset(facts), caps)
 
     def clobber_addr_args(self, st, e, skip=()):
         """variables passed by address may be modified by the callee"""
@@ -1414,6 +1687,18 @@ class _FuncAnalysis:
             for k in (1, 2):
                 g = f + Lin.const(k)
                 if g not in keep and self.entails(a, g) and self.entails(b, g):
+                    keep.add(g)
+                    break
+        # sign of a variable that got different values on the two sides (a length clamped on one branch only)
+        lost = set()
+        for f in (fa | fb) - keep:
+            lost |= {q for q in f.t if q[0] == 'var'}
+        for q in sorted(lost, key=str)[:6]:
+            for k in (1, 0):
+                g = Lin.sym(q) - Lin.const(k)
+                if g in keep:
+                    break
+                if self.entails(a, g) and self.entails(b, g):
                     keep.add(g)
                     break
         return State(frozenset(keep), a.regions & b.regions)
